@@ -47,11 +47,9 @@ PROPS["C11"] = {
             "TestC11Ops": T(600, 20000, shards={"quick": 8, "thorough": 16}),
             "TestC11ManyTerms": T(24, 1000, shards={"quick": 2, "thorough": 8}),
             "TestC11Constants": LIST(),
-            # thorough only: Go native fuzzing (no coverage guidance in a -c binary; mutation from the RFC/boundary seeds)
+            # thorough only: Go native fuzzing (coverage-instrumented variant of the binary, driver kind FUZZ)
             # over the same pure decoder / wrong-length checks; hitting the time budget is a pass
-            "FuzzC11Decode": LIST(quick=None, configs=["default"], timeout=900,
-                                  args=["-test.fuzz=^FuzzC11Decode$", "-test.fuzztime=60s", "-test.parallel=8",
-                                        "-test.fuzzcachedir=fuzzcache-c11"]),
+            "FuzzC11Decode": FUZZ(90, configs=["default"]),
         },
     }],
 }
